@@ -410,18 +410,12 @@ func (r *ClusterReconciler) reconcileBrokerService(ctx context.Context, cluster 
 		if svc.Spec.Type == "" {
 			svc.Spec.Type = corev1.ServiceTypeClusterIP
 		}
-		if annotations := cluster.Spec.Brokers.Service.Annotations; len(annotations) > 0 {
-			svc.Annotations = copyStringMap(annotations)
-		}
-		if strings.TrimSpace(cluster.Spec.Brokers.Service.LoadBalancerIP) != "" {
-			svc.Spec.LoadBalancerIP = strings.TrimSpace(cluster.Spec.Brokers.Service.LoadBalancerIP)
-		}
-		if ranges := cluster.Spec.Brokers.Service.LoadBalancerSourceRanges; len(ranges) > 0 {
-			svc.Spec.LoadBalancerSourceRanges = append([]string(nil), ranges...)
-		}
-		if policy := parseExternalTrafficPolicy(cluster.Spec.Brokers.Service.ExternalTrafficPolicy); policy != "" {
-			svc.Spec.ExternalTrafficPolicy = policy
-		}
+		// Assigned unconditionally: a value removed from the cluster spec must
+		// also disappear from an existing Service.
+		svc.Annotations = copyStringMap(cluster.Spec.Brokers.Service.Annotations)
+		svc.Spec.LoadBalancerIP = strings.TrimSpace(cluster.Spec.Brokers.Service.LoadBalancerIP)
+		svc.Spec.LoadBalancerSourceRanges = append([]string(nil), cluster.Spec.Brokers.Service.LoadBalancerSourceRanges...)
+		svc.Spec.ExternalTrafficPolicy = parseExternalTrafficPolicy(cluster.Spec.Brokers.Service.ExternalTrafficPolicy)
 		return controllerutil.SetControllerReference(cluster, svc, r.Scheme)
 	})
 	return err
